@@ -183,6 +183,17 @@ func (i *informerStub) dropCached(o Obj) {
 
 // apply puts one watch event into the cache and calls the captured handlers.
 func (i *informerStub) apply(ev WatchEvent, initial bool) {
+	if notify := i.stage(ev, initial); notify != nil {
+		notify()
+	}
+	i.sim.afterHandlers()
+}
+
+// stage updates the cache for one event and returns the notification of the
+// handlers (nil if there is none). A shared informer updates its store first and
+// hands the notification to its listeners asynchronously, so the store can be
+// several events ahead of what the handlers have been told (DeliverBatch).
+func (i *informerStub) stage(ev WatchEvent, initial bool) func() {
 	k, _ := cache.MetaNamespaceKeyFunc(ev.Obj)
 	oldI, exists, _ := i.indexer.Indexer.GetByKey(k)
 	switch ev.Type {
@@ -192,11 +203,14 @@ func (i *informerStub) apply(ev WatchEvent, initial bool) {
 		obj := cp(ev.Obj)
 		i.setCached(obj)
 		if exists {
-			i.sim.onCacheEvent(i.kind, "update", oldI.(Obj), obj, false)
-			for _, h := range i.handlers {
-				h.OnUpdate(oldI, obj)
+			return func() {
+				i.sim.onCacheEvent(i.kind, "update", oldI.(Obj), obj, false)
+				for _, h := range i.handlers {
+					h.OnUpdate(oldI, obj)
+				}
 			}
-		} else {
+		}
+		return func() {
 			i.sim.onCacheEvent(i.kind, "add", nil, obj, false)
 			for _, h := range i.handlers {
 				h.OnAdd(obj, initial)
@@ -204,17 +218,47 @@ func (i *informerStub) apply(ev WatchEvent, initial bool) {
 		}
 	case watch.Deleted:
 		if !exists {
-			return
+			return nil
 		}
 		i.dropCached(ev.Obj)
 		// DeltaFIFO hands out the final state carried by the delete event
 		obj := cp(ev.Obj)
-		i.sim.onCacheEvent(i.kind, "delete", nil, obj, false)
-		for _, h := range i.handlers {
-			h.OnDelete(obj)
+		return func() {
+			i.sim.onCacheEvent(i.kind, "delete", nil, obj, false)
+			for _, h := range i.handlers {
+				h.OnDelete(obj)
+			}
 		}
 	}
-	i.sim.afterHandlers()
+	return nil
+}
+
+// DeliverBatch applies up to n pending events of the kind to the cache and only
+// then notifies the handlers of each, in order.
+func (s *Sim) DeliverBatch(k Kind, n int) bool {
+	inf := s.informer(k)
+	if inf == nil || len(s.Store.pending[k]) == 0 {
+		return false
+	}
+	if k == KPVC && s.claimGroupInFlight() {
+		return false
+	}
+	var notes []func()
+	for j := 0; j < n && len(s.Store.pending[k]) > 0; j++ {
+		ev := s.Store.pending[k][0]
+		s.Store.pending[k] = s.Store.pending[k][1:]
+		if f := inf.stage(ev, false); f != nil {
+			notes = append(notes, f)
+		}
+	}
+	if len(notes) > 1 {
+		s.count("cache.store_ahead_of_handlers")
+	}
+	for _, f := range notes {
+		f()
+	}
+	s.afterHandlers()
+	return true
 }
 
 // Deliver applies the oldest pending event of the kind. Returns false if none.
@@ -303,6 +347,24 @@ func (s *Sim) Resync(k Kind) {
 		for _, h := range inf.handlers {
 			h.OnUpdate(obj, obj)
 		}
+	}
+	s.afterHandlers()
+}
+
+// ResyncOne is Resync for one cached object.
+func (s *Sim) ResyncOne(k Kind, ky string) {
+	inf := s.informer(k)
+	if inf == nil {
+		return
+	}
+	oI, ok, _ := inf.indexer.Indexer.GetByKey(ky)
+	if !ok {
+		return
+	}
+	obj := oI.(Obj)
+	s.onCacheEvent(k, "update", obj, obj, true)
+	for _, h := range inf.handlers {
+		h.OnUpdate(obj, obj)
 	}
 	s.afterHandlers()
 }
